@@ -62,7 +62,7 @@ def src_hash(subdirs=("src",)):
     return h.hexdigest()[:16]
 
 
-SAN_FLAGS = ["-fsanitize=address,undefined", "-fno-sanitize-recover=undefined", "-fwrapv", "-fno-sanitize=signed-integer-overflow",
+SAN_FLAGS = ["-fsanitize=address,undefined", "-fno-sanitize-recover=undefined", "-fwrapv", "-fno-sanitize=signed-integer-overflow", "-fno-sanitize=alignment",
              "-fno-omit-frame-pointer"]
 
 
